@@ -23,7 +23,27 @@
     [:=] that opens a new Go scope entry gets a fresh number, so shadowing is resolved by the
     translator and the environment is flat).  Loops are numbered as well; [break]/[continue]
     carry the number of the loop they leave (a label or the innermost loop), so neither
-    variable names nor label names occur in the translated term. *)
+    variable names nor label names occur in the translated term.
+
+    Constructs.  Expressions: variables, integer / string literals, true/false/nil,
+    [+ - * / % << >> & | ^], comparisons on integers, strings, bools and error-vs-nil,
+    short-circuit [&& ||], [!], len, a[i] (out of range = panic), a[i:] / a[i:j],
+    integer conversions ([EWrap]), string <-> []byte conversions (identity),
+    binary.BigEndian.Uint16/32/64, math/bits.Len64, append(a, x) on a local slice, make([]T, n),
+    fmt.Errorf / errors.New (an opaque non-nil error), a LOCAL map[K]struct{} with integer keys
+    as a set ([m[k] = struct{}{}] is [EAppend], [_, ok := m[k]] is [EHas]), and
+    buf.Buffer(n) for a parameter of type encoding.Bufferer (the parameter IS the arbitrary
+    byte string the buffer contains; the call is buf[:n]).
+    Statements: [:=], [=], op-assignment, [++ --], [var], multi-assignment, a[i] = v on a
+    local or in/out slice, *p = v on a pointer parameter, if / else with init statement,
+    for init; cond; post, for i, x := range slice (NOT over a string: Go ranges over runes),
+    labelled break / continue, return (also bare, with named results), panic, copy(dst, src),
+    calls of other translated functions (hoisted into [SCall] statements when they occur in an
+    unconditionally evaluated expression position).  Everything else is [SUnsupported] /
+    [EUnsupported]: goroutines, defer, closures, switch, select, goto, method calls, structs,
+    general maps, pointers other than a dereferenced parameter, floating point.
+    The interpreter iterates [range] over a snapshot of the slice; the translator refuses
+    writes to the ranged slice inside the loop body, where Go's behaviour would differ. *)
 From Coq Require Import List ZArith NArith Bool String Lia.
 From W.lib Require Import Tree Bytes.
 Import ListNotations.
